@@ -49,14 +49,49 @@ pub enum LdapOp {
     Unbind,
 }
 
+// Check that a controls element has the shape the control parser relies on.
+fn well_formed_controls(t: &StructureTag) -> bool {
+    let ctrls = match t.payload {
+        PL::C(ref ctrls) => ctrls,
+        PL::P(_) => return false,
+    };
+    ctrls.iter().all(|ctrl| {
+        let comps = match ctrl.payload {
+            PL::C(ref comps) => comps,
+            PL::P(_) => return false,
+        };
+        let mut comps = comps.iter();
+        match comps.next() {
+            Some(StructureTag {
+                payload: PL::P(ref oid),
+                ..
+            }) if std::str::from_utf8(oid).is_ok() => (),
+            _ => return false,
+        }
+        let maybe_val = match comps.next() {
+            None => None,
+            Some(c) if c.id == Types::Boolean as u64 => match c.payload {
+                PL::P(ref v) if !v.is_empty() => comps.next(),
+                _ => return false,
+            },
+            Some(c) if c.id == Types::OctetString as u64 => Some(c),
+            Some(_) => return false,
+        };
+        match maybe_val {
+            None => true,
+            Some(v) => matches!(v.payload, PL::P(_)),
+        }
+    })
+}
+
 #[allow(clippy::type_complexity)]
 fn decode_inner(buf: &mut BytesMut) -> Result<Option<(RequestId, (Tag, Vec<Control>))>, io::Error> {
-    let decoding_error = io::Error::new(io::ErrorKind::Other, "decoding error");
+    let decoding_error = || io::Error::new(io::ErrorKind::Other, "decoding error");
     let mut parser = lber::Parser::new();
     let binding = parser.parse(buf);
     let (i, tag) = match binding {
         Err(e) if e.is_incomplete() => return Ok(None),
-        Err(_e) => return Err(decoding_error),
+        Err(_e) => return Err(decoding_error()),
         Ok((i, ref tag)) => (i, tag),
     };
     buf.advance(buf.len() - i.len());
@@ -66,9 +101,9 @@ fn decode_inner(buf: &mut BytesMut) -> Result<Option<(RequestId, (Tag, Vec<Contr
         .and_then(|t| t.expect_constructed())
     {
         Some(tags) => tags,
-        None => return Err(decoding_error),
+        None => return Err(decoding_error()),
     };
-    let mut maybe_controls = tags.pop().expect("element");
+    let mut maybe_controls = tags.pop().ok_or_else(decoding_error)?;
     let has_controls = match maybe_controls {
         StructureTag {
             id,
@@ -76,7 +111,7 @@ fn decode_inner(buf: &mut BytesMut) -> Result<Option<(RequestId, (Tag, Vec<Contr
             ref payload,
         } if class == TagClass::Context && id == 0 => match *payload {
             PL::C(_) => true,
-            PL::P(_) => return Err(decoding_error),
+            PL::P(_) => return Err(decoding_error()),
         },
         StructureTag { id, class, .. } if class == TagClass::Context && id == 10 => {
             // Active Directory bug workaround
@@ -86,31 +121,37 @@ fn decode_inner(buf: &mut BytesMut) -> Result<Option<(RequestId, (Tag, Vec<Contr
             // but AD puts it outside, where the optional controls belong. This confuses
             // our parser, which doesn't expect the extra sequence element at the end
             // and crashes. This match arm thus ignores the element.
-            maybe_controls = tags.pop().expect("element");
+            maybe_controls = tags.pop().ok_or_else(decoding_error)?;
             false
         }
         _ => false,
     };
     let (protoop, controls) = if has_controls {
-        (tags.pop().expect("element"), Some(maybe_controls))
+        (
+            tags.pop().ok_or_else(decoding_error)?,
+            Some(maybe_controls),
+        )
     } else {
         (maybe_controls, None)
     };
     let controls = match controls {
-        Some(controls) => parse_controls(controls),
+        Some(controls) if well_formed_controls(&controls) => parse_controls(controls),
+        Some(_) => return Err(decoding_error()),
         None => vec![],
     };
-    let msgid = match parse_uint(
-        tags.pop()
-            .expect("element")
-            .match_class(TagClass::Universal)
-            .and_then(|t| t.match_id(Types::Integer as u64))
-            .and_then(|t| t.expect_primitive())
-            .expect("message id")
-            .as_slice(),
-    ) {
-        Ok((_, id)) => id as i32,
-        _ => return Err(decoding_error),
+    let msgid = tags
+        .pop()
+        .and_then(|t| t.match_class(TagClass::Universal))
+        .and_then(|t| t.match_id(Types::Integer as u64))
+        .and_then(|t| t.expect_primitive())
+        .ok_or_else(decoding_error)?;
+    // the envelope has exactly these elements, and a message ID is 0..=2^31-1
+    if !tags.is_empty() || msgid.is_empty() || msgid.len() > 5 {
+        return Err(decoding_error());
+    }
+    let msgid = match parse_uint(msgid.as_slice()) {
+        Ok((_, id)) if id <= i32::MAX as u64 => id as i32,
+        _ => return Err(decoding_error()),
     };
     Ok(Some((msgid, (Tag::StructureTag(protoop), controls))))
 }
